@@ -35,6 +35,8 @@ struct Base {
     method: &'static str,
     path: &'static str,
     query: &'static str,
+    /// HTTP/2 authority carries an explicit port (the signed host is the authority as sent, port included)
+    h2port: bool,
     meta: bool,
     /// shape of the signed x-amz-meta-a header (meta only): 0 one line; 1 two lines (canonical form joins them with ',');
     /// 2 one line with inner runs of blanks (collapsed in the canonical form)
@@ -65,7 +67,10 @@ fn bases() -> Vec<Base> {
                         if hshape > 0 && !(query.is_empty() || query == "a=1") {
                             continue;
                         }
-                        v.push(Base { method, path, query, meta, hshape, h2 });
+                        v.push(Base { method, path, query, meta, hshape, h2, h2port: false });
+                        if h2 {
+                            v.push(Base { method, path, query, meta, hshape, h2, h2port: true });
+                        }
                     }
                 }
             }
@@ -79,7 +84,7 @@ fn unsigned_req(b: &Base) -> Req {
     let mut r = Req::new(b.method, &target);
     if b.h2 {
         r.version = http::Version::HTTP_2;
-        r.authority = Some(HOST.to_owned());
+        r.authority = Some(if b.h2port { format!("{HOST}:8014") } else { HOST.to_owned() });
     } else {
         r.headers.push(("host".into(), HOST.as_bytes().to_vec()));
     }
@@ -647,7 +652,7 @@ pub fn run(ctx: &Ctx) -> (Acc, Report) {
     });
     let rep = Report {
         level: "exploration",
-        rule: format!("{n_bases} presignable requests (GET/PUT x 7 keys (incl. a key that contains an escape-shaped text) x 10 extra-query shapes (incl. valueless parameters, bare and with '=', and names whose order changes when they are escaped) x signed headers {{host, host+meta, host + a meta header sent on two lines, host + a meta header with inner runs of blanks}} x HTTP/1.1|2) x 14 X-Amz-Expires spellings x server-clock instants at signing time + {{-901,-900,-899,-1,0,1,E-1,E,E+1}} s and +-1 ms around both window edges; plus, inside the window, every single mutation/removal/duplication/case change of every query parameter, each signature digit, each credential field, method, each path byte, signed header value/removal, a further line of a signed header appended / prepended, the lines of a repeated signed header swapped / one dropped, provider secret, and 3 equivalent rewrites (parameter order, header name case, blanks inside a signed value); thorough: also every pair of these mutations (signature digits 0, 31, 63 standing for the 64 in pairs). Oracle: reference verifier at the same instant. All judged cases are non-trivial; distinct by id."),
+        rule: format!("{n_bases} presignable requests (GET/PUT x 7 keys (incl. a key that contains an escape-shaped text) x 10 extra-query shapes (incl. valueless parameters, bare and with '=', and names whose order changes when they are escaped) x signed headers {{host, host+meta, host + a meta header sent on two lines, host + a meta header with inner runs of blanks}} x HTTP/1.1 | HTTP/2 with :authority | HTTP/2 with :authority and an explicit port) x 14 X-Amz-Expires spellings x server-clock instants at signing time + {{-901,-900,-899,-1,0,1,E-1,E,E+1}} s and +-1 ms around both window edges; plus, inside the window, every single mutation/removal/duplication/case change of every query parameter, each signature digit, each credential field, method, each path byte, signed header value/removal, a further line of a signed header appended / prepended, the lines of a repeated signed header swapped / one dropped, provider secret, and 3 equivalent rewrites (parameter order, header name case, blanks inside a signed value); thorough: also every pair of these mutations (signature digits 0, 31, 63 standing for the 64 in pairs). Oracle: reference verifier at the same instant. All judged cases are non-trivial; distinct by id."),
         exhaustive: true,
         extra: json!({"histories": hist_n, "history_requests_executed": hist_steps, "history_rule": "all sequences of length 1..3 over 8 requests of this property's scheme(s) (two identities x honest / signed with the other identity's secret x two scopes) plus every pair led by a request of another scheme, on one service instance, single-threaded, fixed order; each verdict = the reference verdict of that request alone", "base_requests": n_bases, "signing_instant_x_expiry_cases": n_instants, "signing_instant_rule": "7 signing instants (end of a leap day, of a year, of a century; midnight; 00:14:59; 2^31-1 s; a plain noon) x 5 expiries x the server clock second by second around t0-900, t0, t0+E and around every midnight in reach (thorough: the whole window for E <= 900)"}),
         assumptions: vec![
